@@ -492,7 +492,7 @@ def gen_jobs(ctx):
             if os.path.isfile(p) and fn.endswith(".parquet") and os.path.getsize(p) > 12:
                 jobs.append((None, {}, {"expect": "testdata", "stream": "test-data", "file": fn, "kwargs": {}}))
     # 1. random layouts in the region the reader is supposed to support
-    for _ in range(260 if quick else 6000):
+    for _ in range(260 if quick else 14000):
         add({"width": None, "created_by": rng.choice(["spec-encoder", "parquet-mr version 1.12.3"])})
     # 2. every column type x v1/v2 x optional/required, one chunk, PLAIN and dictionary
     for ct in G.COLTYPES:
@@ -502,20 +502,20 @@ def gen_jobs(ctx):
                     add({"coltype": ct, "v2": v2, "encs": enc, "ncols": 1, "created_by": "spec-encoder"}, stream="types")
     # 3. dictionary index widths 0..32 x run patterns (bit-packed runs of width >= 25 are the known-bad region)
     for w in range(0, 33):
-        for _ in range(2 if quick else 10):
+        for _ in range(2 if quick else 20):
             add({"coltype": rng.choice([G.COLTYPES[1], G.COLTYPES[10], G.COLTYPES[21]]), "encs": ["dict"], "width": w, "ncols": 1,
                  "nrgs": 1, "rows": rng.choice([1, 7, 8, 9, 40, 200]), "second_dict": False, "created_by": "spec-encoder"},
                 stream="width-lattice")
     # 4. delta shapes x widths
     for dbits in list(range(0, 33)) + ([40, 48, 56] if not quick else []):
-        for _ in range(1 if quick else 6):
+        for _ in range(1 if quick else 12):
             ct = rng.choice([G.COLTYPES[1], G.COLTYPES[10]])
             if dbits > 31 and ct[0] == 1:
                 ct = G.COLTYPES[10]
             add({"coltype": ct, "encs": ["delta"], "delta_bits": dbits, "ncols": 1, "nrgs": 1, "rows": rng.choice([1, 2, 33, 129, 300]),
                  "optional": rng.random() < 0.3, "created_by": "spec-encoder"}, stream="delta-lattice")
     # 5. page boundary at every row of short columns; several row groups
-    for _ in range(30 if quick else 400):
+    for _ in range(30 if quick else 1200):
         add({"split": "every-row", "rows": rng.choice([1, 2, 3, 5, 9, 12]), "created_by": "spec-encoder"}, stream="every-row")
     # 6. RLE booleans, second dictionary page in a chunk, dictionary fallback
     for _ in range(20 if quick else 200):
